@@ -22,17 +22,20 @@ import (
 // dropped or duplicated: this check is about the result of ceremonies whose messages all arrive,
 // in whatever order.
 const (
-	modeEagerRandom  = iota // whenever something is pending, deliver a uniformly chosen envelope
-	modeEagerLIFO           // always the most recently sent envelope first
-	modeBatchShuffle        // let the pool settle, then deliver the whole batch in random order
-	modeBatchReverse        // let the pool settle, then deliver the batch newest-first
-	modeLaggardSender       // one node's outgoing envelopes are released only when nothing else moves
-	modeLaggardRecv         // one node's incoming envelopes are released only when nothing else moves
-	modeClassPriority       // random strict priority between message classes (sig/msg of each id, p2p)
-	modeRecvPriority        // random strict priority between receivers: one node races ahead
-	modeSendPriority        // random strict priority between senders
+	modeEagerRandom   = iota // whenever something is pending, deliver a uniformly chosen envelope
+	modeEagerLIFO            // always the most recently sent envelope first
+	modeBatchShuffle         // let the pool settle, then deliver the whole batch in random order
+	modeBatchReverse         // let the pool settle, then deliver the batch newest-first
+	modeLaggardSender        // one node's outgoing envelopes are released only when nothing else moves
+	modeLaggardRecv          // one node's incoming envelopes are released only when nothing else moves
+	modeClassPriority        // random strict priority between message classes (sig/msg of each id, p2p)
+	modeRecvPriority         // random strict priority between receivers: one node races ahead
+	modeSendPriority         // random strict priority between senders
 	numModes
 )
+
+// maxHold caps how long the scheduler keeps one envelope back (real time, pacing only).
+const maxHold = 800 * time.Millisecond
 
 var modeNames = [...]string{"eager-random", "eager-lifo", "batch-shuffle", "batch-reverse", "laggard-sender",
 	"laggard-receiver", "class-priority", "receiver-priority", "sender-priority"}
@@ -57,6 +60,7 @@ type sched struct {
 
 	sent atomic.Int64
 	done atomic.Int64
+	born sync.Map // *fakenet.Envelope -> time.Time of the send (hold-time cap)
 	wake chan struct{}
 	stop chan struct{}
 	fin  chan struct{}
@@ -67,6 +71,7 @@ type sched struct {
 	inversions   int
 	roundOverlap int // a later-round envelope delivered while an earlier-round envelope was pending
 	leftInFlight int
+	agedOut      int
 	maxSeq       int64
 	maxPool      int
 	classes      map[string]int
@@ -84,7 +89,8 @@ func newSched(net *fakenet.Net, ids []peer.ID, rng *rand.Rand, mode int, patienc
 	s.victim = rng.Intn(len(ids))
 	s.nodePrio = rng.Perm(len(ids))
 	s.settle = []time.Duration{200 * time.Microsecond, time.Millisecond, 4 * time.Millisecond}[rng.Intn(3)]
-	net.SetPolicy(func(*fakenet.Envelope) fakenet.Verdict {
+	net.SetPolicy(func(e *fakenet.Envelope) fakenet.Verdict {
+		s.born.Store(e, time.Now())
 		s.sent.Add(1)
 		s.poke()
 
@@ -154,13 +160,6 @@ func roundOf(class string) int {
 	return 0
 }
 
-func (s *sched) inflight() int64 {
-	s.mu.Lock()
-	defer s.mu.Unlock()
-
-	return s.started - s.done.Load()
-}
-
 func (s *sched) heldBack(e *fakenet.Envelope) bool {
 	switch s.mode {
 	case modeLaggardSender:
@@ -185,7 +184,10 @@ func (s *sched) classPrio(class string) int {
 // run is the scheduler goroutine.
 func (s *sched) run() {
 	defer close(s.fin)
-	lastSent, lastChange := int64(-1), time.Now()
+	// "settled" = no envelope was sent and no handler returned for a while. Deliveries that are
+	// still blocked inside a handler (pedersen board) do not count as movement: waiting for them
+	// would turn the 5 s receive timeout of the real handlers into part of the schedule.
+	lastSent, lastDone, lastChange := int64(-1), int64(-1), time.Now()
 	var batch []*fakenet.Envelope // remaining envelopes of the batch being delivered (batch modes)
 	for {
 		select {
@@ -193,10 +195,10 @@ func (s *sched) run() {
 			return
 		default:
 		}
-		if v := s.sent.Load(); v != lastSent {
-			lastSent, lastChange = v, time.Now()
+		if v, d := s.sent.Load(), s.done.Load(); v != lastSent || d != lastDone {
+			lastSent, lastDone, lastChange = v, d, time.Now()
 		}
-		settled := func(d time.Duration) bool { return time.Since(lastChange) >= d && s.inflight() == 0 }
+		settled := func(d time.Duration) bool { return time.Since(lastChange) >= d }
 
 		if len(batch) > 0 {
 			e := batch[0]
@@ -212,6 +214,27 @@ func (s *sched) run() {
 			s.maxPool = len(pend)
 		}
 		s.mu.Unlock()
+		// Hold-time cap (pacing only): the real code has real-time timeouts on its streams (5 s for a
+		// bcast signature response, 5 s for a board handler to hand over a bundle). An envelope that
+		// has waited maxHold is delivered next whatever the mode says, so that the schedule reorders
+		// messages without turning into a multi-second network outage on a loaded machine.
+		var oldest *fakenet.Envelope
+		var oldestAge time.Duration
+		for _, e := range pend {
+			if b, ok := s.born.Load(e); ok {
+				if age := time.Since(b.(time.Time)); age > oldestAge {
+					oldest, oldestAge = e, age
+				}
+			}
+		}
+		if oldest != nil && oldestAge > maxHold {
+			s.mu.Lock()
+			s.agedOut++
+			s.mu.Unlock()
+			s.deliver(oldest)
+
+			continue
+		}
 		var elig, held []*fakenet.Envelope
 		for _, e := range pend {
 			if s.heldBack(e) {
@@ -293,6 +316,7 @@ func (s *sched) deliver(e *fakenet.Envelope) {
 	if !s.net.Take(e) {
 		return
 	}
+	s.born.Delete(e)
 	class := classOf(e)
 	rd := roundOf(class)
 	overlap := false
@@ -364,6 +388,7 @@ type schedStats struct {
 	Inversions   int            `json:"inversions"`
 	RoundOverlap int            `json:"round_overlap"`
 	LeftInFlight int            `json:"left_in_flight"`
+	AgedOut      int            `json:"released_by_hold_time_cap"`
 	MaxPool      int            `json:"max_pool"`
 	Classes      map[string]int `json:"classes"`
 }
@@ -377,7 +402,7 @@ func (s *sched) stats() schedStats {
 	}
 
 	return schedStats{Mode: modeNames[s.mode], Victim: s.victim, Sent: s.sent.Load(), Delivered: s.done.Load(),
-		Inversions: s.inversions, RoundOverlap: s.roundOverlap, LeftInFlight: s.leftInFlight, MaxPool: s.maxPool, Classes: cl}
+		Inversions: s.inversions, RoundOverlap: s.roundOverlap, LeftInFlight: s.leftInFlight, AgedOut: s.agedOut, MaxPool: s.maxPool, Classes: cl}
 }
 
 // orderHash identifies the schedule: the sequence of (from, to, class) deliveries.
